@@ -155,6 +155,15 @@ def binop(op, a, b):
     if isinstance(a, Botv) or isinstance(b, Botv):
         return Botv()
     if not isinstance(a, Iv) or not isinstance(b, Iv):
+        # masking an integer of unknown range: x & m (m >= 0) is in [0, m], x % p (p > 0) is in [0, p-1] for every int x
+        if isinstance(op, ast.BitAnd):
+            for m, other in ((a, b), (b, a)):
+                if isinstance(m, Iv) and m.lo >= 0 and m.hi != INF and isinstance(other, Topv):
+                    return Iv(0, m.hi)
+        if isinstance(op, ast.Mod) and isinstance(b, Iv) and b.lo > 0 and b.hi != INF and isinstance(a, Topv):
+            return Iv(0, b.hi - 1)
+        if isinstance(op, ast.RShift) and isinstance(a, Iv) and a.lo >= 0 and isinstance(b, Topv):
+            return Iv(0, a.hi)
         return Topv('arithmetic on %r, %r' % (a, b))
     if isinstance(op, ast.Add):
         return Iv(a.lo + b.lo, a.hi + b.hi)
@@ -397,7 +406,45 @@ class FuncAnalyzer:
         self.problems.append((fi.qualname, 'statement %s outside the interval idiom' % type(s).__name__))
         return env
 
+    def const_elements(self, node, env, fi):
+        """Exact element list of a small constant iteration (literal tuple / list of constants, constant range), else None."""
+        if isinstance(node, (ast.Tuple, ast.List)) and len(node.elts) <= 64:
+            out = []
+            for x in node.elts:
+                v = self.expr(x, env, fi)
+                if isinstance(v, Iv) and v.const() is not None:
+                    out.append(v)
+                elif isinstance(x, (ast.Tuple, ast.List)):
+                    sub = self.const_elements(x, env, fi)
+                    if sub is None:
+                        return None
+                    out.append(Tupv(sub))
+                else:
+                    return None
+            return out
+        if isinstance(node, ast.Call) and isinstance(node.func, ast.Name) and node.func.id == 'range' and not node.keywords:
+            vals = [self.expr(a, env, fi) for a in node.args]
+            if vals and all(isinstance(v, Iv) and v.const() is not None for v in vals):
+                r = range(*[int(v.const()) for v in vals])
+                if len(r) <= 64:
+                    return [Iv(k, k) for k in r]
+        if isinstance(node, ast.Name):
+            r = self.repo.resolve_name(fi.module, node.id)
+            if r and r[0] == 'const' and isinstance(r[2], (ast.Tuple, ast.List)):
+                return self.const_elements(r[2], {}, fi)
+        return None
+
     def for_loop(self, s, env, fi, rets):
+        elems = self.const_elements(s.iter, env, fi)
+        if elems is not None and not s.orelse and not any(isinstance(n, (ast.Break, ast.Continue)) for n in ast.walk(s)):
+            cur = dict(env)
+            for el in elems:
+                self.assign(s.target, el, cur)
+                out = self.block(s.body, cur, fi, rets)
+                if out is None:
+                    return cur
+                cur = out
+            return cur
         it = self.expr(s.iter, env, fi)
         if not isinstance(it, Tupv) or not (len(it.items) == 1 and isinstance(it.items[0], tuple)):
             var_iv = Topv('loop iterable')
